@@ -204,6 +204,7 @@ def nonstrict_collections(s, n):
 
 
 def run(s):
+    K.hostile_callers(s)
     K.suite_workload(s)
     K.fixtures_workload(s)
     K.huge_cases(s, 2 if s.tier == 'quick' else 12)
